@@ -87,6 +87,12 @@ func vectors(widths []int, limit int, f func(v []*big.Int)) bool {
 			}
 		} else {
 			alph[i] = valpha.Unsigned(w)
+			// small odd values: divisors with long reciprocal expansions (the targets divide differently)
+			for _, x := range []int64{5, 7, 13, 25, 27, 57, 100, 127, 255} {
+				if w >= 8 || x < 1<<uint(w) {
+					alph[i] = append(alph[i], big.NewInt(x))
+				}
+			}
 		}
 	}
 	var rec func(i int)
